@@ -23,7 +23,7 @@ RULE = (
 )
 ASSUMPTIONS = ["results are keyed in configuration order (as the drivers return them)", "grids have at least 2 cells per axis"]
 TOLERANCES = {"fields": "bit-identical (array_equal)", "coordinates/met": "exact"}
-BUDGET = {"quick": dict(examples=120, shards=1), "thorough": dict(examples=500, shards=16)}
+BUDGET = {"quick": dict(examples=250, shards=1), "thorough": dict(examples=1500, shards=16)}
 
 _SPECIAL = [0.0, -0.0, 1.0, -1.0, 5e-324, -2.2250738585072014e-308, 1e300, -1e300, 1.7976931348623157e308, 3.141592653589793]
 
